@@ -612,6 +612,8 @@ func main() {
 		var h History
 		if i%5 == 4 {
 			h = genTypeHistory(f.Rand(i), maxLen)
+		} else if i%5 == 2 {
+			h = genSubRevHistory(f.Rand(i), maxLen)
 		} else {
 			h = genHistory(f.Rand(i), maxLen)
 		}
@@ -740,7 +742,7 @@ func main() {
 	if maxLen >= 12 {
 		maxMods = 3
 	}
-	res.Rule = fmt.Sprintf("histories of load(good text) | load(bad text) | process | read | walk of length <= %d on one Modules value: %d corpus histories (the D30-D32, D44-D46, D55 witnesses, the histories of the Lean non-vacuity examples, imports / submodules arriving after a first Process, unions over typedefs of a library whose newer revision arrives late, extension-bearing built-in types whose extension module arrives after a Process / read), each in raw-text and in statement-tree mode, then seeded histories over the texts of a generated module set (harness/gen: 1-%d modules with submodules, groupings, typedefs, identities, augments, deviations) in as-generated / submodules-first / reversed / shuffled arrival order, 40%% with another (later or earlier) revision of one module whose body differs, with process, read (Find), walk (ToEntry + GetErrors + a visit of every node of everything) and bad texts interleaved; every fifth history is built around types that name a built-in and still depend on the module set: a generated module gets unions (nested, inside typedefs at module and container level, in leaf-lists) whose members are typedefs of an imported type library beside decimal64 / enumeration / bits / leafref members with restrictions of their own, and built-in types (string, int8, enumeration, decimal64, bits, leafref, boolean, union and its members) that carry an extension statement of an imported module; the library arrives early in one revision and after a Process in another that redefines the typedefs (other base kind, range, enum / bit set, fraction digits, union members), the extension module arrives only after a first Process, walk or read; bad texts = the good text of a pending or loaded module with a nested scope holding an unresolvable typedef (60%%) and ONE late fault (unknown substatement deep inside the last statement, missing type at the end, syntax error at the end, a non-module node after the module, a second module in the text that is a duplicate, the text twice) or an exact duplicate (same or other file name); distinct_nontrivial = distinct histories (by operations and texts) with a process that follows an accepted load and an earlier process or rejected load, i.e. where incrementality or failed-load transparency is actually exercised", maxLen, nCorpus, maxMods)
+	res.Rule = fmt.Sprintf("histories of load(good text) | load(bad text) | process | read | walk of length <= %d on one Modules value: %d corpus histories (the D30-D32, D44-D46, D55 witnesses, the histories of the Lean non-vacuity examples, imports / submodules arriving after a first Process, unions over typedefs of a library whose newer revision arrives late, extension-bearing built-in types whose extension module arrives after a Process / read), each in raw-text and in statement-tree mode, then seeded histories over the texts of a generated module set (harness/gen: 1-%d modules with submodules, groupings, typedefs, identities, augments, deviations) in as-generated / submodules-first / reversed / shuffled arrival order, 40%% with another (later or earlier) revision of one module whose body differs, with process, read (Find), walk (ToEntry + GetErrors + a visit of every node of everything) and bad texts interleaved; every fifth history is built around a submodule revision that is superseded after a Process: module m includes s, the first revision of s has an include (submodule t) and / or an import (module lib) of its own and uses what they bring (grouping, typedef, identity base, identityref), a newer (one time in five: older) revision of s without those statements arrives after a Process, sometimes a third one after another, so that nothing reaches the old revision - and sometimes t - any more; in the general histories one revision variant in three is of a submodule; every fifth history is built around types that name a built-in and still depend on the module set: a generated module gets unions (nested, inside typedefs at module and container level, in leaf-lists) whose members are typedefs of an imported type library beside decimal64 / enumeration / bits / leafref members with restrictions of their own, and built-in types (string, int8, enumeration, decimal64, bits, leafref, boolean, union and its members) that carry an extension statement of an imported module; the library arrives early in one revision and after a Process in another that redefines the typedefs (other base kind, range, enum / bit set, fraction digits, union members), the extension module arrives only after a first Process, walk or read; bad texts = the good text of a pending or loaded module with a nested scope holding an unresolvable typedef (60%%) and ONE late fault (unknown substatement deep inside the last statement, missing type at the end, syntax error at the end, a non-module node after the module, a second module in the text that is a duplicate, the text twice) or an exact duplicate (same or other file name); distinct_nontrivial = distinct histories (by operations and texts) with a process that follows an accepted load and an earlier process or rejected load, i.e. where incrementality or failed-load transparency is actually exercised", maxLen, nCorpus, maxMods)
 	res.Distribution["histories_corpus"] = int64(2 * nCorpus)
 	res.Distribution["histories_with_loads_as_raw_text"] = modes["text"]
 	res.Distribution["histories_with_loads_as_statement_trees"] = modes["stmts"]
